@@ -46,12 +46,44 @@ def patches_for(pid):
 
 
 def run_audit(pid, mod, load_fn, max_patches=None):
-    from report import Report
-    from core import AnchorMissing
+    """the stored patches are spread over BA_AUDIT_JOBS (default 4) worker processes, each with its own scratch copy"""
     res = {'patches': [], 'detected': 0, 'missed': 0, 'silent_on_refactors': 0, 'false_alarms_on_refactors': 0, 'stale': 0}
     plist = patches_for(pid)
     if max_patches:
         plist = plist[:max_patches]
+    if not plist:
+        return res
+    jobs = max(1, min(int(os.environ.get('BA_AUDIT_JOBS', '4') or 4), len(plist)))
+    chunks = [plist[i::jobs] for i in range(jobs)]
+    if jobs == 1:
+        parts = [_audit_chunk(pid, mod, load_fn, chunks[0])]
+    else:
+        import multiprocessing as mp
+        ctx = mp.get_context('fork')
+        with ctx.Pool(jobs) as pool:
+            parts = pool.starmap(_audit_chunk_by_name, [(pid, ch) for ch in chunks])
+    order = {p['id']: i for i, p in enumerate(plist)}
+    for part in parts:
+        for k in ('detected', 'missed', 'silent_on_refactors', 'false_alarms_on_refactors', 'stale'):
+            res[k] += part[k]
+        res['patches'].extend(part['patches'])
+    res['patches'].sort(key=lambda e: order.get(e['id'], 0))
+    res['workers'] = jobs
+    return res
+
+
+def _audit_chunk_by_name(pid, plist):
+    import importlib
+    sys.path.insert(0, HERE)
+    mod = importlib.import_module('props.' + pid.lower())
+    import run as runmod
+    return _audit_chunk(pid, mod, runmod.evaluate, plist)
+
+
+def _audit_chunk(pid, mod, load_fn, plist):
+    from report import Report
+    from core import AnchorMissing
+    res = {'patches': [], 'detected': 0, 'missed': 0, 'silent_on_refactors': 0, 'false_alarms_on_refactors': 0, 'stale': 0}
     if not plist:
         return res
     scratch = tempfile.mkdtemp(prefix='ba-audit-%s-' % pid)
